@@ -29,6 +29,7 @@ import numpy as np
 
 PROPERTY = "C10"
 GROUPS = ["bisect"]
+EXTRA_PROPS = ["Props/X09_bnaf.v"]  # the BNAF forward map meets the hypotheses of the autoregressive search theorems; inverse within tol
 MANIFEST = {
     "design_ref": "DESIGN.md 4.10",
     "technique": "Coq proofs over R about an executable model of bisection_search.py that is generic over an ordered field "
